@@ -381,7 +381,7 @@ def run(ctx) -> None:
     ok = len(inn) == 1 and len(non) == 1 and ex.equiv(BF.var(non[0]) | BF.var(inn[0]))
     ctx.check("R6", ok, "_validate_release_tag returns only for None or an accepted value", "cli._validate_release_tag: accepts other tag values", ex.to_dnf(), loc=vt.loc())
     for root in ("cli.test", "cli.update"):
-        shapes.check_passthrough(ctx, "R6", root, "cli._validate_release_tag", {"tag": "tag"})
+        shapes.check_passthrough(ctx, "R6", root, "cli._validate_release_tag", {vt.params[0]: "tag"})
 
 
 def none_filter_rule(ctx, eng: str, rule: str) -> None:
